@@ -52,6 +52,12 @@ def run(run):
     if MAIN not in prog.bodies:
         run.missing("C19", MAIN)
         return
+    # helpers that main was split into (single call site, private, not error-propagating) are spliced back so that
+    # every rule below sees one body whether or not the code was divided for readability
+    inl = prog.inline_single_use_helpers(MAIN, skip=r"::(build|convert_file|parse_value_of)$")
+    if inl:
+        run.note("main analysed with its single-use helpers inlined: %s" % ", ".join(short(x) for x in inl))
+    run.record("inlined_helpers", [short(x) for x in inl])
     b = prog.bodies[MAIN]
     ex = Expr(prog, MAIN, opaque=r"get_matches$")
     sl = prog.slicer(MAIN)
@@ -188,11 +194,10 @@ def run(run):
     run.record("declared_options", sorted(top_opts))
     # settings local: the one passed to the library
     set_local = None
-    cands = [l["id"] for l in b["locals"] if l["ty"] == "svgbob::settings::Settings" and l.get("name")]
-    if len(cands) == 1:
-        set_local = cands[0]
-        # and it is the value passed to the library
-        deps = sl.slice_operand(lt["args"][1])
+    cands = [l["id"] for l in b["locals"] if l["ty"] == "svgbob::settings::Settings"]
+    if cands:
+        # the value passed to the library: follow copies/moves/references back; the settings local is the one of
+        # these that receives field stores
         pl = op_place(lt["args"][1])
         chain = set()
         work = [pl["l"]] if pl else []
@@ -209,8 +214,14 @@ def run(run):
                             work.append(op_place(o)["l"])
                     if "place" in d["rv"]:
                         work.append(d["rv"]["place"]["l"])
-        if set_local not in chain:
-            set_local = None
+        has_stores = set()
+        for blk in b["blocks"]:
+            for st in blk["stmts"]:
+                d = st.get("dst")
+                if d and any(isinstance(pr, dict) and (pr.get("adt") or "").endswith("settings::Settings") for pr in d["p"]):
+                    has_stores.add(d["l"])
+        sel = [c for c in cands if c in chain and c in has_stores]
+        set_local = sel[0] if len(sel) == 1 else None
     stored = {}
     for blk in b["blocks"]:
         if blk["cleanup"]:
@@ -266,9 +277,9 @@ def run(run):
                 # Result: 0 = Ok, 1 = Err; Option: 0 = None, 1 = Some
                 ty_hint = expr_str(cs)
                 is_result = mentions(cs, lambda z: z[0] == "call" and re.search(r"File::open|File::create|fs::write|write_all$|::parse$|svgbob_cli::build|convert_file|read_to_string|create_dir", z[1]))
-                if is_result and tk == 1:
+                if is_result and tk in (1, ("not", (0,))):
                     errish = True
-                if is_result and tk == 0:
+                if is_result and tk in (0, ("not", (1,))):
                     okish = True
         inst = "exit(%s) in %s" % (code, short(p))
         if code is None:
